@@ -343,14 +343,15 @@ func genFWFail(w *bufio.Writer, thorough bool, r *Rng) {
 		maxCalls := 2 + 3*(sz/65536+2)
 		for k := 0; k <= maxCalls; k++ {
 			ops2 := append([]string{}, ops...)
-			once := ""
-			if k%3 == 1 && o.conc != 1 {
-				// only this one call fails; the sink works again afterwards.  Concurrent Writers only: they never
-				// touch the sink again after a failure, so the outcome must be that of a lasting failure (a
-				// sequential Writer whose Flush failed retries the block on the next Flush, by design)
-				once = "!"
+			fmt.Fprintf(w, "W %d %s\n", k, strings.Join(ops2, " "))
+			if o.conc != 1 && k > 0 {
+				// the same session with a *transient* failure: only this one call fails, the sink works again
+				// afterwards.  Every call index (size word, data and block checksum writes alike; with block
+				// checksums the data writes are the calls 2, 5, 8, …).  Concurrent Writers only: they never touch
+				// the sink again after a failure, so the outcome must be that of a lasting failure (a sequential
+				// Writer whose Flush failed retries the block on the next Flush, by design)
+				fmt.Fprintf(w, "W %d! %s\n", k, strings.Join(ops2, " "))
 			}
-			fmt.Fprintf(w, "W %d%s %s\n", k, once, strings.Join(ops2, " "))
 		}
 	}
 	// failing source for ReadFrom
